@@ -330,10 +330,39 @@ func checkAuthor(c *Ctx, fn *ssa.Function) {
 	okSize := false
 	if len(feeCall.Call.Args) == 2 {
 		if sz, ok := feeCall.Call.Args[1].(*ssa.Call); ok && calleeShort(&sz.Call) == "EstimateVirtualSize" {
+			// the four counts must be derived from the scripts actually fetched: counters of a loop ranging over the
+			// fetched scripts, or results of a helper that is given those scripts
+			isScripts := func(v ssa.Value) bool {
+				sl := &Slicer{P: p, KeepExtract: true}
+				for _, o := range sl.Origins(v) {
+					if ex, ok := o.(*ssa.Extract); ok && ex.Index == 3 {
+						if cc, ok := ex.Tuple.(*ssa.Call); ok && cc.Call.StaticCallee() == nil && !cc.Call.IsInvoke() {
+							return true
+						}
+					}
+				}
+				return false
+			}
+			loops := loopsOf(fn)
 			counted := 0
 			for i := 0; i < 4; i++ {
-				if _, isPhi := sz.Call.Args[i].(*ssa.Phi); isPhi {
-					counted++
+				switch a := sz.Call.Args[i].(type) {
+				case *ssa.Phi:
+					for _, l := range loops {
+						if l.Kind != "for" && l.OverVal != nil && isScripts(l.OverVal) && (l.Blocks[a.Block()] || l.Header.Dominates(a.Block())) {
+							counted++
+							break
+						}
+					}
+				case *ssa.Extract:
+					if hc, ok := a.Tuple.(*ssa.Call); ok {
+						for _, ha := range hc.Call.Args {
+							if isScripts(ha) {
+								counted++
+								break
+							}
+						}
+					}
 				}
 			}
 			_, isParam := sz.Call.Args[4].(*ssa.Parameter)
@@ -472,7 +501,8 @@ func checkAuthor(c *Ctx, fn *ssa.Function) {
 func predicateSequence(fn *ssa.Function) []string {
 	var seq []string
 	seen := map[string]bool{}
-	for _, f := range Closures(fn) {
+	var walk func(f *ssa.Function, depth int)
+	walk = func(f *ssa.Function, depth int) {
 		for _, b := range f.Blocks {
 			for _, ins := range b.Instrs {
 				call, ok := ins.(*ssa.Call)
@@ -484,8 +514,15 @@ func predicateSequence(fn *ssa.Function) []string {
 					seen[n] = true
 					seq = append(seq, n)
 				}
+				// helpers of the same package (e.g. an extracted classifier)
+				if callee := call.Call.StaticCallee(); callee != nil && depth < 2 && fnPkgPath(callee) == fnPkgPath(fn) && callee != fn {
+					walk(callee, depth+1)
+				}
 			}
 		}
+	}
+	for _, f := range Closures(fn) {
+		walk(f, 0)
 	}
 	return seq
 }
